@@ -129,6 +129,34 @@ ValidAt(I, E, t) == NonNeg32(Sub32(t, I)) /\ NonNeg32(Sub32(E, t))
 ValidDefined(I, E, t) == Sub32(t, I) # Half /\ Sub32(E, t) # Half
 
 -----------------------------------------------------------------------------
+(* Public keys in DNSKEY RDATA and the octets an RRSIG signs -- only as much   *)
+(* as the key life cycle needs: a signature made with an imported / generated  *)
+(* key is checked by the standard library over THESE octets.                   *)
+(* e, n, x, y: big-endian integers without leading zero octets.                *)
+RSAPublicKey(e, n) ==                                         \* RFC 3110 section 2
+  (IF Len(e) <= 255 THEN <<Len(e)>> ELSE <<0>> \o U16(Len(e))) \o e \o n
+PadTo(x, len) == [i \in 1..(len - Len(x)) |-> 0] \o x
+ECPublicKey(x, y, len) == PadTo(x, len) \o PadTo(y, len)     \* RFC 6605 section 4: fixed-width X | Y
+SigHashOf(alg) == CASE alg = 5 -> "sha1" [] alg = 7 -> "sha1" [] alg = 8 -> "sha256" [] alg = 10 -> "sha512"
+                    [] alg = 13 -> "sha256" [] alg = 14 -> "sha384" [] alg = 15 -> "none" [] OTHER -> "unsupported"
+(* RFC 4034 section 3.1.8.1 for an RRset whose RDATA holds no names, owner not *)
+(* a wildcard expansion (labels = number of labels of the owner):              *)
+(*   RRSIG RDATA without signature (signer in canonical form) | RR(1) | ...     *)
+(*   RR(i) = owner (canonical) | type | class | original TTL | RDLENGTH | RDATA *)
+(*   in canonical RDATA order (section 6.3), duplicates removed.               *)
+(* f: [tc, alg, labels, origttl, exp, inc, keytag, signer]; 32-bit fields are  *)
+(* 4-octet strings.  (The general canonical form is property C10.)             *)
+RRSIGRdataSans(f) ==
+  U16(f.tc) \o <<f.alg, f.labels>> \o f.origttl \o f.exp \o f.inc \o U16(f.keytag) \o EncName(LowerName(f.signer))
+CanonRR(owner, type, class, ttl4, rdata) ==
+  EncName(LowerName(owner)) \o U16(type) \o U16(class) \o ttl4 \o U16(Len(rdata)) \o rdata
+RECURSIVE SortRdata(_)
+SortRdata(S) == IF S = {} THEN <<>>
+                ELSE LET m == CHOOSE x \in S : \A y \in S : x = y \/ LexLess(x, y) IN <<m>> \o SortRdata(S \ {m})
+RRSIGInput(f, owner, class, rdatas) ==
+  LET sorted == SortRdata({ rdatas[i] : i \in 1..Len(rdatas) }) IN
+  RRSIGRdataSans(f) \o Concat([i \in 1..Len(sorted) |-> CanonRR(owner, f.tc, class, f.origttl, sorted[i])])
+-----------------------------------------------------------------------------
 (* A second legal spelling of a name (RFC 1035 section 5.1): every octet as    *)
 (* \DDD.  Names!Parse reads it back to the same labels; a letter written that  *)
 (* way is still a letter of the name.                                          *)
